@@ -232,7 +232,8 @@ func (g *Gen) create(fixed bool) Op {
 	if g.r.P(g.bad()) {
 		maxr = "31"
 	}
-	rate := g.r.Pick("1", "50000000000000000", "100000000000000000", "300000000000000000", "500000000000000000", E18, "5000000000000000000", "333333333333333333")
+	rate := g.r.Pick("1", "50000000000000000", "100000000000000000", "300000000000000000", "500000000000000000", E18, "5000000000000000000", "333333333333333333",
+		"250000000000000000", "200000000000000000", "750000000000000000", "666666666666666667", "333333333333333334", "500000000000000000", "250000000000000000")
 	if g.r.P(g.bad()) {
 		rate = g.r.Pick("0", "nil")
 	}
